@@ -122,7 +122,7 @@ def pool(fam: str, extra: Any, r: random.Random) -> list:
 
 def gen_cases(tier: str, seed: int):
     r = random.Random(f"{seed}:C01")
-    reps = 4 if tier == "quick" else 40
+    reps = 8 if tier == "quick" else 60
     for rep in range(reps):
         for ti, (spell, fam, extra) in enumerate(TYPES):
             for path in PATHS:
